@@ -4,6 +4,7 @@ import (
 	"fmt"
 	"go/constant"
 	"go/token"
+	"regexp"
 	"sort"
 	"strings"
 
@@ -22,7 +23,7 @@ func runC17(c *Ctx) {
 		"Every Host.Update*Name stores the merged entry into its own field, and merges it into the MAC entry's copy only when the merge reported a change, with the row lock held for writing. " +
 		"Decode side, one clause only: a rejecting length guard in layer_dns.go whose bound is affine in the same values as an access it dominates is not stricter than the largest such access (a message that ends exactly at a field boundary is not refused). " +
 		"Not decided: equality of decoded DNS names/records with an independent DNS implementation beyond that (decode robustness is C08's); Type and Expire are overwritten by design and excluded."
-	r.Rule("merge", "Merge overwrites an attribute only with a different non-empty value, and reports exactly those changes", 6)
+	r.Rule("merge", "Merge overwrites an attribute only with a different non-empty value, and reports exactly those changes", 8)
 	r.Rule("update", "Update*Name stores the merged entry and propagates it to the MAC entry only on change, under the row lock", 5)
 
 	merge := c.P.Method("", "NameEntry", "Merge")
@@ -63,6 +64,26 @@ func runC17(c *Ctx) {
 			r.Add(core.Obligation{Rule: "merge", Key: "merge attribute " + a, Func: core.FuncName(merge), Status: core.Violated, Detail: "Merge never assigns " + a})
 		}
 	}
+	// the remaining fields (the source tag Type, Expire) are not attributes that count as a change, but they are not
+	// erased either: each is assigned from the argument only under a test that the argument's value is not the zero value
+	core.EachInstr(merge, func(i ssa.Instruction) {
+		s, ok := i.(*ssa.Store)
+		if !ok || !strings.HasPrefix(norm(s.Addr), "local(e).") {
+			return
+		}
+		f := strings.TrimPrefix(norm(s.Addr), "local(e).")
+		for _, a := range attrs {
+			if a == f {
+				return
+			}
+		}
+		st := core.Proved
+		if !hasGuard(guardsOf(i), `^!\(local\(nameEntry\)\.`+regexp.QuoteMeta(f)+`==(""|nil|0)\)$`) {
+			st = core.Violated
+		}
+		r.Add(core.Obligation{Rule: "merge", Key: "merge field " + f + " is not erased", Func: core.FuncName(merge), Pos: c.P.Pos(core.PosOf(i)), Status: st,
+			Basis: "assigned under argument." + f + " != zero value", Detail: "Merge assigns " + f + " from the argument whatever it holds (guards: " + guardTexts(guardsOf(i)) + "): merging an entry that leaves " + f + " empty erases the known value, and no change is reported"})
+	})
 	// the modified flag
 	st := core.Violated
 	det := "the second result of Merge is not a φ chain over the attribute blocks"
@@ -296,6 +317,23 @@ func runC17(c *Ctx) {
 	}
 
 	// record arrays are read relative to the loop counter
+	// the shortest question is five octets: the root name (one zero octet), type and class. A pre-check of the question
+	// must not demand more before the name is decoded (a query for "." - the priming query - is well formed).
+	if dq := c.P.Func("", "DecodeQuestion"); dq != nil && len(dq.Params) >= 2 {
+		for _, g := range tightGuards(dq) {
+			if g.S != ssa.Value(dq.Params[0]) || len(g.L.coef) != 1 || g.L.coef[norm(dq.Params[1])] != 1 {
+				continue
+			}
+			demanded := 1 - g.K // reject ⇔ index - len(p) ≥ K ⇔ len(p) - index < 1-K
+			st := core.Proved
+			if demanded > 5 {
+				st = core.Violated
+			}
+			r.Add(core.Obligation{Rule: "decode-guards", Key: "decode-guards packet.DecodeQuestion shortest question", Func: core.FuncName(dq), Pos: c.P.Pos(core.PosOf(g.If)), Status: st,
+				Basis:  fmt.Sprintf("the pre-check demands %d octets after the header; the shortest question has 5", demanded),
+				Detail: fmt.Sprintf("DecodeQuestion refuses a message with fewer than %d octets after the header before decoding the name; a question for the root name takes 5 (00 type class): a well-formed query or response for \".\" is rejected", demanded)})
+		}
+	}
 	// a well-formed record is skipped or stored, never refused: each error return of the answer decoder lies under a test
 	// that witnesses a malformation (name decode failed, record runs past the message, RDATA length of an address record
 	// wrong, an in-addr.arpa owner that is not an address). Anything else fails a whole well-formed message.
